@@ -277,6 +277,34 @@ func mapRangeKeyed(rg *ssa.Range) (bool, string) {
 	if key == nil {
 		return false, "key unused: effects cannot be keyed"
 	}
+	// no early exit and no loop-carried state: otherwise the result depends on the iteration order
+	for _, ref := range referrersOf(rg) {
+		nx, ok := ref.(*ssa.Next)
+		if !ok {
+			continue
+		}
+		hdr := nx.Block()
+		for _, l := range findLoops(rg.Parent()) {
+			if l.Header != hdr {
+				continue
+			}
+			for _, ins := range hdr.Instrs {
+				if _, isPhi := ins.(*ssa.Phi); isPhi {
+					return false, "the loop carries state from one iteration to the next"
+				}
+			}
+			for b := range l.Body {
+				if b == hdr {
+					continue
+				}
+				for _, s := range b.Succs {
+					if !l.Body[s] {
+						return false, "the loop is left early (break/return): which entry is seen first depends on the order"
+					}
+				}
+			}
+		}
+	}
 	if val == nil {
 		return true, "only the key is used"
 	}
